@@ -58,6 +58,8 @@ def run_variant(mod, base_model, v, tier, base_idents=frozenset()):
     rules = sorted({i.rule for i in viol})
     if v.kind == 'M':
         want = v.rule if v.rule.startswith(mod.PROP) else '%s.%s' % (mod.PROP, v.rule)
+        if v.rule == '*' and rules:
+            return {'variant': v.name, 'status': 'fired', 'rules': rules, 'construct': viol[0].as_dict()}
         if want in rules:
             return {'variant': v.name, 'status': 'fired', 'rules': rules,
                     'construct': [i.as_dict() for i in viol if i.rule == want][0]}
@@ -73,6 +75,9 @@ def _variant_worker(args):
     model = Model()
     if hasattr(mod, 'extra_variants') and tier == 'thorough':
         variants += list(mod.extra_variants(model))
+    if tier == 'thorough':
+        from .mutate import load_seeds
+        variants += load_seeds(prop, report.VERIF)
     return idx, run_variant(mod, model, variants[idx], tier, frozenset(tuple(b) for b in base))
 
 
@@ -166,6 +171,9 @@ def _main(prop, a, seed, timer):
     all_variants = list(getattr(mod, 'VARIANTS', []))
     if hasattr(mod, 'extra_variants') and a.tier == 'thorough':
         all_variants += list(mod.extra_variants(model))
+    if a.tier == 'thorough':
+        from .mutate import load_seeds
+        all_variants += load_seeds(prop, report.VERIF)
     variants = [v for v in all_variants if v.kind == 'M'] if a.tier == 'quick' else list(all_variants)
     vres = []
     control_errs = []
